@@ -308,7 +308,12 @@ func firstLine(s string) string {
 }
 
 // grown reports whether the globals of the prelude have been blown up by the cases run so far.
-func (t *rt) grown() bool {
+func (t *rt) grown() (big bool) {
+	defer func() {
+		if recover() != nil {
+			big = true
+		}
+	}()
 	for _, n := range []string{"x", "s", "y", "u", "a", "o"} {
 		v := t.r.Get(n)
 		if v == nil {
